@@ -43,11 +43,11 @@ ASSUMPTIONS = [
 OPEN_STATEMENTS = [
     'givens_reconstruct / square_reconstruct (V Q U^dagger = (D|0) for all isometries, as a Lean theorem about the numeric '
     'Model): not proved as a whole; covered by the reconstruction oracle.  Proved: the complete schedule characterisation, '
-    'the 2x2 element identities, and that in the exact regime the sweeps of givens_decomposition_square and of the second '
-    'stage of givens_decomposition annihilate the whole strict upper part (square_sweep_annihilates_upper_triangle, '
-    'givens_sweep_annihilates_upper_part).  Missing for the full theorem: (a) the left-unitary stage zeroes the corner '
-    '(hypothesis of the second theorem), (b) upper-triangular + orthonormal rows => diagonal of unit modulus, '
-    '(c) the bookkeeping M\' = V Q G_1^dagger .. G_k^dagger (rotateCols is right multiplication by G^dagger).',
+    'the 2x2 element identities, and that in the exact regime givens_decomposition_square and both stages of '
+    'givens_decomposition annihilate every entry above the diagonal (square_sweep_annihilates_upper_triangle, '
+    'givens_left_stage_zeroes_corner, givens_decomposition_annihilates_upper_part).  Missing for the full theorem: '
+    '(b) upper-triangular + orthonormal rows => diagonal of unit modulus, (c) the bookkeeping '
+    'M\' = V Q G_1^dagger .. G_k^dagger (rotateRows / rotateCols are multiplications by G / G^dagger) and unitarity of V.',
     'gaussian_reconstruct (V W U^dagger = (0|D)) : not proved; FALSE on the real code when the left N x N block of W is '
     'singular (known finding F11, kernel-checked counterexample on the Model); open for a non-singular left block.',
     'givens_matrix_elements_sound is stated in the exact regime (entries / imaginary parts below EQ_TOLERANCE are exactly 0); '
